@@ -243,6 +243,11 @@ def fn_program(spec, rec):
     model = {}      # id(group) -> expected mask
     combining = 0
     final = None
+    if spec.get("start_empty"):
+        # a freshly created, still empty subset group is the edit subset before the first step
+        g0 = dc.new_subset_group()
+        mode.edit_subset = [g0]
+        model[id(g0)] = np.zeros(data.shape, dtype=bool)
     for i, (m, t) in enumerate(spec["prog"]):
         new_mask = gen.model_tree_mask(t, lookup)
         state = Builder(data, "ctor").build(t)
@@ -296,6 +301,8 @@ def fn_program(spec, rec):
         rec.label("mode:" + m)
     if len(dc.subset_groups) > 1:
         rec.label("several-groups")
+    if spec.get("start_empty"):
+        rec.label("starts-from-empty-group")
 
 
 # --------------------------------------------------------------------------- generators
@@ -323,7 +330,7 @@ def program_cases(draw):
     prog = []
     for _ in range(n):
         prog.append([draw(st.sampled_from(MODES + ["And", "Or", "Xor", "AndNot"])), draw(gen.tree_spec(dspec, max_leaves=2))])
-    return {"data": dspec, "prog": prog, "override": draw(st.booleans()), "rotate_edit": draw(st.booleans())}
+    return {"data": dspec, "prog": prog, "override": draw(st.booleans()), "rotate_edit": draw(st.booleans()), "start_empty": draw(st.booleans())}
 
 
 def checks(tier):
